@@ -100,8 +100,32 @@ static void walk_nodes(const cbor_item_t* it, int* firstp, int* budget) {
   }
 }
 
+/* the client may edit a string's bytes in place through its handle (same length): the recorded code point count is then
+ * stale, and inspecting the item must still not write to it */
+static void edit_strings_in_place(cbor_item_t* it, int* budget) {
+  if (!it || (*budget)-- <= 0) return;
+  switch (cbor_typeof(it)) {
+    case CBOR_TYPE_STRING:
+      if (cbor_string_is_definite(it)) {
+        size_t n = cbor_string_length(it);
+        unsigned char* h = cbor_string_handle(it);
+        if (n >= 2 && vh_randn(2)) {
+          if (h[0] < 0x80 && h[1] < 0x80) { h[0] = 0xc3; h[1] = 0xa9; }  /* two ASCII letters -> one two-byte scalar */
+          else { h[0] = 'e'; h[1] = 'e'; }                               /* ... or the other way round (possibly invalidating the text) */
+        }
+      } else
+        for (size_t i = 0; i < cbor_string_chunk_count(it); i++) edit_strings_in_place(cbor_string_chunks_handle(it)[i], budget);
+      break;
+    case CBOR_TYPE_ARRAY: for (size_t i = 0; i < cbor_array_size(it); i++) edit_strings_in_place(cbor_array_handle(it)[i], budget); break;
+    case CBOR_TYPE_MAP: for (size_t i = 0; i < cbor_map_size(it); i++) { edit_strings_in_place(cbor_map_handle(it)[i].key, budget); edit_strings_in_place(cbor_map_handle(it)[i].value, budget); } break;
+    case CBOR_TYPE_TAG: edit_strings_in_place(it->metadata.tag_metadata.tagged_item, budget); break;
+    default: break;
+  }
+}
+
 static void ro_case(cbor_item_t* it) {
   cur = it;
+  if (vh_randn(2)) { int b = 64; edit_strings_in_place(it, &b); }
   fputs("{\"e\":\"ro\"", vh_out);
   vt_ktree("tree", it);
   fputs(",\"ops\":[", vh_out);
